@@ -415,6 +415,27 @@ func (g *G) call(op string, serial uint32) callSpec {
 		profile := types.TimeProfile{ID: id, LinkedProfileID: linked, From: from, To: to, Weekdays: wd, Segments: segs}
 		a["profile"] = M{"id": int(id), "linked": int(linked), "from": pf, "to": pt, "weekdays": pw, "segments": ps}
 		f = func(u uhppote.IUHPPOTE) (any, error) { return u.SetTimeProfile(serial, profile) }
+		reproj = func() M {
+			// the maps the caller still holds, projected again (keys in ascending order, as generated)
+			ps2 := []any{}
+			for k := uint8(1); k <= 3; k++ {
+				if sg, ok := profile.Segments[k]; ok {
+					ps2 = append(ps2, []any{int(k), segPair(projHHmm(sg.Start), projHHmm(sg.End))})
+				}
+			}
+			for k := range profile.Segments {
+				if k < 1 || k > 3 {
+					ps2 = append(ps2, []any{int(k), "unexpected key"})
+				}
+			}
+			pw2 := []any{}
+			for d := 0; d < 7; d++ {
+				if v, ok := profile.Weekdays[time.Weekday(d)]; ok {
+					pw2 = append(pw2, []any{d, v})
+				}
+			}
+			return M{"serial": u32(serial), "profile": M{"id": int(profile.ID), "linked": int(profile.LinkedProfileID), "from": pf, "to": pt, "weekdays": pw2, "segments": ps2}}
+		}
 	case "ClearTimeProfiles":
 		f = func(u uhppote.IUHPPOTE) (any, error) { return u.ClearTimeProfiles(serial) }
 	case "ClearTaskList":
